@@ -71,7 +71,6 @@ ALPHA = Alphabet(cased='deginostzé', uncased=' .1\\')
 
 UNFINISHED = ('QUEUED', 'INITIALIZING', 'UPLOADING', 'PAUSED', 'INCOMPLETE', 'VIRGIN')
 PRE_STATES = ['QUEUED', 'INITIALIZING', 'UPLOADING', 'PAUSED', 'INCOMPLETE', 'ABORTED', 'COMPLETE', 'FAILED']
-CHANGE_REASONS = (AbortReason.BLOCKED, AbortReason.FILE_NOT_SHARED)
 
 
 def ensure_fs():
@@ -194,6 +193,8 @@ class World:
         self.sd = {}
         self.order = []
         self.aliases = {}      # every directory registered during this run (also removed ones)
+        self.removed = []      # the application keeps the objects remove_shared_directory() returned (their items stay
+        #                        alive deterministically instead of until some garbage collection)
         self.scanned = False   # initial scan done
         self.restructured = False   # a directory was added / removed after the last scan
 
@@ -299,7 +300,7 @@ class World:
 
     def remove_dir(self, dkey):
         self.restructured = self.restructured or self.scanned
-        self.sm.remove_shared_directory(self.sd[dkey])
+        self.removed.append(self.sm.remove_shared_directory(self.sd[dkey]))
         del self.mode[dkey], self.listed[dkey], self.sd[dkey]
         self.order.remove(dkey)
 
@@ -326,11 +327,14 @@ class World:
         return abs_path[len(os.path.join(ROOT, DIRS[dkey])) + 1:].replace('/', '\\')
 
     def names(self, remote_path):
-        """strict reading (used where the manager is *obliged* to act): the path is the canonical remote
-        path of a currently shared file"""
-        for f in self.shared_files():
-            if self.ref_remote_path(f) == remote_path:
-                return f
+        """strict reading (used where the manager is *obliged* to act): the path is one we currently hand out for a
+        file of a shared directory (equal to the canonical '@@alias\\relative path' whenever the directories were
+        scanned after the last add/remove)"""
+        for sd in self.sm.shared_directories:
+            for item in sd.items:
+                if item.get_remote_path() == remote_path:
+                    p = item.get_absolute_path()
+                    return p if p in ALL_FILES and self.owner(p) else None
         return None
 
     def denotes(self, remote_path):
@@ -418,7 +422,8 @@ class World:
         t = Transfer(u, remote_path, TransferDirection.UPLOAD)
         t.local_path = local_path
         t.filesize = 10
-        self.run(self.tm.add(t))
+        if self.run(self.tm.add(t)) is not t:
+            raise symex.PathAbort('an upload for this user and path exists already')
         t.state = TransferState.init_from_state(TransferState.State[state], t)
         t.abort_reason = reason
         if state == 'UPLOADING':
@@ -552,18 +557,18 @@ def h_search(c, w, user=0, phrase_lens=(2,), query='song'):
         for kind, fds in (('visible', m.results), ('locked', locked)):
             for fd in fds:
                 f = w.denotes(fd.filename)
-                c.check(f is not None, 'search_result_is_a_shared_file', sig=w.sig('search', kind), info=fd.filename)
                 if f is None:
-                    continue
-                if kind == 'visible':
+                    # a file that is in no shared directory (items of a removed directory stay in the term map while
+                    # something references them): nobody can queue it (see `request`), the statement has no clause for it
+                    c.reach('search_lists_unshared_file')
+                    c.note('search reply lists a file outside every shared directory', fd.filename, kind)
+                elif kind == 'visible':
                     c.check(And(w.entitled(dest, w.owner(f))), 'search_visible_only_if_entitled',
                             sig=w.sig('search', 'visible'), info=[fd.filename, w.mode[w.owner(f)]])
                 for k, ph in enumerate(phrases):
                     # the path as the asker sees it: the reported file name without the opaque '@@alias\' prefix
                     c.check(Not(phrase_ci_in(ph, fd.filename.partition('\\')[2])), 'search_no_excluded_phrase',
                             sig=w.sig('search', 'excluded_phrase'), info={'file': fd.filename, 'phrase': k, 'list': kind})
-
-
 
 @_guarded
 def h_shares(c, w, user=0):
@@ -582,8 +587,10 @@ def h_shares(c, w, user=0):
             for fd in dd.files:
                 c.reach('shares_visible_listed')
                 f = w.denotes(dd.name + '\\' + fd.filename)
-                c.check(f is not None, 'share_entry_is_a_shared_file', sig=w.sig('shares', 'entry'), info=[dd.name, fd.filename])
-                if f is not None:
+                if f is None:
+                    c.reach('shares_list_unshared_file')
+                    c.note('share listing contains a file outside every shared directory', dd.name, fd.filename)
+                else:
                     c.check(And(w.entitled(u, w.owner(f))), 'share_visible_only_if_entitled',
                             sig=w.sig('shares', 'visible'), info=[dd.name, fd.filename, w.mode[w.owner(f)]])
 
@@ -894,7 +901,7 @@ META = {
     'explanation': 'Real managers are constructed with their real constructors on a virtual event loop over a real directory tree '
                    '(/tmp/verif_c08_fs, scanned by the real scan code). settings.users.friends and SharedDirectory.users are membership '
                    'proxies whose `in` forks on a z3 Bool; block flags are z3 bit-vectors combined with the real BlockingFlag members; '
-                   'excluded phrases are tuples of symbolic code points. Search replies, share listings, queue/transfer request handlers, '
+                   'excluded phrases are tuples of symbolic characters (letter class + case bit). Search replies, share listings, queue/transfer request handlers, '
                    'the shares-changed management step and whole change->detection->management sequences are executed and every '
                    'observable (messages recorded on the fake network/connection, Transfer.state/abort_reason) is compared by z3 with '
                    'the reference predicate entitled/permitted over all values of those variables on the path.',
@@ -902,11 +909,12 @@ META = {
                   SharesManager.get_shared_item_cache, SharesManager.get_shared_item, SharesManager.find_shared_item_cache,
                   SharesManager.find_shared_item, SharesManager.get_shared_directories_for_user, SharesManager.create_shares_reply,
                   SharesManager.add_shared_directory, SharesManager.update_shared_directory, SharesManager.remove_shared_directory,
-                  SharesManager.scan_directory_files, shares_model.SharedDirectory.get_item_by_remote_path,
+                  SharesManager.scan_directory_files, SharesManager.scan, shares_model.SharedDirectory.get_item_by_remote_path,
                   shares_model.SharedItem.get_remote_path, shares_model.SharedItem.get_query_path,
                   TransferManager._on_peer_transfer_queue, TransferManager._on_peer_transfer_request, TransferManager._add_upload,
                   TransferManager._evaluate_aborted_state, TransferManager.manage_shares_changed, TransferManager._management_job,
-                  TransferManager.manage_transfers, TransferManager._request_shares_cycle, TransferManager.abort,
+                  TransferManager.manage_transfers, TransferManager._initialize_upload, TransferManager._request_shares_cycle,
+                  TransferManager.abort,
                   SearchManager._query_shares_and_reply, SearchManager._on_distributed_search_request,
                   SearchManager._on_distributed_server_search_request, SearchManager._on_server_search_request,
                   SearchManager._on_file_search, SearchManager._on_excluded_search_phrases,
@@ -930,16 +938,19 @@ META = {
     'discriminants': ['directory shape and share mode per directory', 'requesting user', 'search carrier message (4)',
                       'message kind queue/transfer request', 'requested path: each shared file or one of 11 variants',
                       'upload state before the step (8) and abort reason (3)', 'kind of configuration change (8) and new share mode (3)',
-                      'whether the upload was started / aborted by the user / re-requested between change and cycle',
-                      'phrase lengths'],
+                      'whether the upload was started / aborted by the user / re-requested between change and cycle / whether '
+                      'scan() follows an added or removed directory', 'phrase lengths', 'query text'],
     'bounds': {
-        'quick': {'directories': '1..2 of {Music, Private} in every mode combination + 2 nested shapes', 'users': '3 (requests from user 0; symmetric)',
-                  'phrases': '1 phrase of length 1..3, 2 phrases of length 2+1', 'changes_in_sequence': '1 (2 for block/unblock and friend changes)',
+        'quick': {'directories': '1..2 of {Music, Private} in every mode combination, 2 nested shapes, 4 shapes with a nested directory '
+                                 'added/removed without a new scan', 'users': '3 (requests from user 0; the users are interchangeable)',
+                  'phrases': '1 phrase of length 0..3, 2 phrases of length 2+1', 'changes_in_sequence': '1 (2 for flags / friends / listed)',
                   'uploads_per_step': '1 (one job with 2)'},
-        'thorough': {'directories': '1..3 incl. nested, every mode combination', 'users': 'requests from each of the 3 users',
-                     'phrases': 'up to 2 phrases of length <= 3', 'changes_in_sequence': '2 (every ordered pair of change kinds)',
-                     'uploads_per_step': '1..2'}},
+        'thorough': {'directories': '1..3 incl. nested, every mode combination; 24 add/remove-without-scan shapes',
+                     'users': 'requests from each of the 3 users', 'phrases': 'up to 3 phrases, length <= 3',
+                     'changes_in_sequence': '2 (every ordered pair of the 8 change kinds on 7 shapes)', 'uploads_per_step': '1..2'}},
     'outside': ['PeerDirectoryContentsReply (create_directory_reply ignores locks; not among the property\'s observables)',
+                'search replies listing files of a directory that was removed from the shares (its items stay in the term map while '
+                'referenced): observed and noted (reach label search_lists_unshared_file), no clause of the statement covers it',
                 'bytes on file connections: "served" is observed as the PeerTransferRequest offer sent by _initialize_upload',
                 'the window between a settings mutation and its detection by UserManager._management_job (<= 1 s poll): a QUEUED upload '
                 'can be started in that window; the property\'s second sentence ("ends up") is checked after detection',
@@ -948,7 +959,8 @@ META = {
                 'change sequences longer than 2; more than 3 directories; direct mutation of SharedDirectory.users without update_shared_directory'],
     'assumptions': ['configuration changes are made through settings.users.friends / settings.users.blocked (in place or replaced) and '
                     'SharesManager.add_/update_/remove_shared_directory',
-                    'a remote path names a file iff it equals "@@<alias>\\<path below the deepest shared directory>" (pinned reference)'],
+                    'listings and served files are judged by the file they denote ("@@<any alias registered in the run>\\<relative path>", '
+                    'Transfer.local_path); re-queueing / "File not shared" are only demanded for paths the shares manager currently hands out'],
 }
 
 
